@@ -18,12 +18,13 @@ TOPMODS = ['helper', 'helperx', 'help', 'tools']
 # layouts
 class Layout:
     def __init__(self):
+        self.ns_dirs = []
         self.files = {}      # relpath -> text
         self.mods = {}       # dotted -> dict(path=rel, is_pkg=bool, funcs=[name], classes={cname: [(mname, kind)]})
 
-    def add_module(self, dotted, rel, text, funcs, classes, is_pkg=False):
+    def add_module(self, dotted, rel, text, funcs, classes, is_pkg=False, ns=False):
         self.files[rel] = text
-        self.mods[dotted] = dict(path=rel, is_pkg=is_pkg, funcs=funcs, classes=classes)
+        self.mods[dotted] = dict(path=rel, is_pkg=is_pkg, funcs=funcs, classes=classes, ns=ns)
 
     def children(self, dotted):
         return sorted(m for m in self.mods if m.startswith(dotted + '.') and '.' not in m[len(dotted) + 1:])
@@ -102,6 +103,17 @@ def gen_layout(rnd, prefix='', wrapped=True):
     for m in rnd.sample(TOPMODS, rnd.randint(0, 2)):
         t, f, c = gen_module_text(rnd, wrapped, uniq=uniq)
         lay.add_module(m, '%s%s.py' % (prefix, m), t, f, c)
+    if rnd.random() < 0.35:
+        # a namespace package (a directory without __init__.py) and, beside it, top-level modules that
+        # have the same short names as its modules
+        ns = rnd.choice(['nsp', 'nspace'])
+        lay.ns_dirs = [ns]
+        for m in rnd.sample(MODS[:8], rnd.randint(1, 2)):
+            t, f, c = gen_module_text(rnd, wrapped, uniq=uniq)
+            lay.add_module('%s.%s' % (ns, m), '%s%s/%s.py' % (prefix, ns, m), t, f, c, ns=True)
+            if rnd.random() < 0.7:
+                t, f, c = gen_module_text(rnd, wrapped, uniq=uniq)
+                lay.add_module(m, '%s%s.py' % (prefix, m), t, f, c)
     return lay
 
 
@@ -128,7 +140,7 @@ def gen_import_stmt(rnd, lay, aliases):
                 bs.append(Binding(tgt, None, 'module', tgt))
         return 'import ' + ', '.join(parts), bs
     if style == 'from_mod':
-        bases = [m for m in mods if lay.mods[m]['is_pkg'] and lay.children(m)]
+        bases = [m for m in mods if lay.mods[m]['is_pkg'] and lay.children(m)] + [n for n in lay.ns_dirs if lay.children(n)]
         if bases:
             base = rnd.choice(bases)
             kids = lay.children(base)
@@ -330,6 +342,8 @@ def spell_selection(rnd, lay, dotted, base_abs, prefix):
     """a spelling of a module/package selection: dotted name or one of several path forms"""
     info = lay.mods[dotted]
     rel = info['path']
+    if info.get('ns'):
+        return dotted      # a file below a namespace directory has no dotted name of its own as a path
     if info['is_pkg']:
         rel_sel = os.path.dirname(rel)
         forms = ['dotted', 'dotted', 'rel', 'abs', 'init']
@@ -361,7 +375,7 @@ def resolve_rel(p, symlinks):
     return p
 
 
-def harness_selection(lay, specs, script_rel, base_abs, symlinks=None):
+def harness_selection(lay, specs, script_rel, base_abs, symlinks=None, module=None):
     """The selection the property demands, computed from the layout alone: dotted names of
     the selected modules plus all their submodules and sub-packages; a path to a file
     (also an __init__.py) selects that file only; other dotted names verbatim; the script
@@ -389,6 +403,11 @@ def harness_selection(lay, specs, script_rel, base_abs, symlinks=None):
             full = True
             continue
         descend = True
+        if module is not None and spec == module:
+            full = True          # -m X -p X: the executed module itself, by name (the name stays in the selection)
+            add(spec)
+            explicit.add(spec)
+            continue
         if spec in lay.mods:
             d = spec
         elif p in by_path:
@@ -440,6 +459,8 @@ def gen_selection(rnd, lay, bindings, script_rel, base_abs, prefix, forced=(), s
             choice = rnd.random()
             if b.kind == 'module':
                 tgt = real if choice < 0.6 or '.' not in real else real.rsplit('.', 1)[0]
+                if tgt not in lay.mods:
+                    tgt = real          # the parent is a namespace directory: no module of its own
                 specs.append(spell_selection(rnd, lay, tgt, base_abs, prefix))
             else:
                 modname = real.rsplit('.', 1)[0]
@@ -483,18 +504,21 @@ def gen_selection(rnd, lay, bindings, script_rel, base_abs, prefix, forced=(), s
     return specs, cli
 
 
-def gen_layout_case(rnd, e2e, wrapped=True, imports_prob=0.15, variant=None):
+def gen_layout_case(rnd, e2e, wrapped=True, imports_prob=0.15, variant=None, dead_links=False):
     """variant: None | 'twins' (same-named members from different modules, all selected)
                      | 'symlink' (the project is also reachable through a directory symlink and the script
                                   through a file symlink; the run path and the -p spelling differ)"""
     symlinks = {}
     if variant == 'symlink':
         prefix = 'proj/'
+    elif variant == 'module_path_link':
+        prefix = 'real_lib/'
     else:
         prefix = rnd.choice(['', '', '', 'app/'])
     lay = gen_layout(rnd, prefix, wrapped)
     script_real = prefix + rnd.choice(['script.py', 'main.py', 'run_it.py'])
-    with_own = rnd.random() < 0.6 or variant == 'symlink'
+    with_own = rnd.random() < 0.6 or variant in ('symlink', 'module_path_link')
+    module = pythonpath = None
     text, bindings, forced = gen_script(rnd, lay, with_own, twins=(variant == 'twins'))
     files = dict(lay.files)
     files[script_real] = text
@@ -506,10 +530,31 @@ def gen_layout_case(rnd, e2e, wrapped=True, imports_prob=0.15, variant=None):
         # the selection names the same file through a different chain of links
         spellings = [n for n in names if n != script_run]
         spellings += ['./' + n for n in spellings[:2]]
-    case = dict(kind='layout', files=files, script=script_run, script_real=script_real, module=None,
+    if variant == 'module_path_link':
+        # `kernprof -l -p X -m X` where X is found through PYTHONPATH=lib and lib -> real_lib
+        symlinks = {'lib': 'real_lib'}
+        pythonpath = ['lib']
+        files.pop(script_real)
+        if rnd.random() < 0.5:
+            module, script_real = 'run_mod', 'real_lib/run_mod.py'
+        else:
+            module, script_real = 'runpkg.run_mod', 'real_lib/runpkg/run_mod.py'
+            files['real_lib/runpkg/__init__.py'] = ''
+        files[script_real] = text
+        script_run = script_real
+        spellings = [module, module, 'lib/' + script_real[len('real_lib/'):], script_real]
+    if dead_links and variant is None and rnd.random() < 0.3:
+        # dangling symlinks that look like modules (a dead link, an editor lock file) inside a package
+        pk = rnd.choice([m for m in sorted(lay.mods) if lay.mods[m]['is_pkg']])
+        d = os.path.dirname(lay.mods[pk]['path'])
+        symlinks[d + '/dead_link.py'] = d + '/no_such_target.py'
+        if rnd.random() < 0.5:
+            symlinks[d + '/.#m.py'] = d + '/user@host.1234'
+    case = dict(kind='layout', files=files, script=script_run, script_real=script_real, module=module,
+                pythonpath=pythonpath, dead_links=sorted(k for k in symlinks if k.endswith('.py') and 'alias_run' not in k),
                 with_own=with_own, symlinks=symlinks, variant=variant,
                 bindings=[[b.real, b.local, b.kind] for b in bindings],
-                mods={d: dict(path=i['path'], is_pkg=i['is_pkg'], funcs=i['funcs'],
+                mods={d: dict(path=i['path'], is_pkg=i['is_pkg'], ns=i.get('ns', False), funcs=i['funcs'],
                               classes={c: [list(m) for m in ms] for c, ms in i['classes'].items()})
                       for d, i in lay.mods.items()},
                 imports=rnd.random() < imports_prob, e2e=e2e, prefix=prefix)
@@ -524,11 +569,14 @@ def finish_layout_case(rnd, case, base_abs):
     """selections need the absolute directory the driver will use"""
     lay, bindings = case.pop('_lay'), case.pop('_bindings')
     forced, spellings = case.pop('_forced', []), case.pop('_spellings', None)
-    if spellings:
+    if spellings and not case.get('module'):
         spellings = spellings + [os.path.join(base_abs, spellings[0])]
     specs, cli = gen_selection(rnd, lay, bindings, case['script_real'], base_abs, case['prefix'], forced=forced,
                                symlinks={k: v for k, v in case['symlinks'].items() if not k.endswith('.py')},
                                script_spellings=spellings)
+    if case.get('module') and not any(x in spellings for x in specs):
+        specs.append(rnd.choice(spellings))
+        cli = ['-p', ','.join(specs)] if rnd.random() < 0.5 else [a for x in specs for a in ('-p', x)]
     if case.get('variant') == 'symlink' and spellings and not any(
             resolve_rel(os.path.relpath(x, base_abs) if os.path.isabs(x) else x, case['symlinks'])
             == os.path.normpath(case['script_real']) for x in specs):
@@ -536,7 +584,8 @@ def finish_layout_case(rnd, case, base_abs):
         cli = ['-p', ','.join(specs)] if rnd.random() < 0.5 else [a for x in specs for a in ('-p', x)]
     case['prof_mod'] = specs
     case['cli'] = (cli + (['--prof-imports'] if case['imports'] else [])) if case['e2e'] else None
-    S, full, by_descent = harness_selection(lay, specs, case['script_real'], base_abs, case['symlinks'])
+    live = {k: v for k, v in case['symlinks'].items() if k not in case.get('dead_links', [])}
+    S, full, by_descent = harness_selection(lay, specs, case['script_real'], base_abs, live, module=case.get('module'))
     case['S_h'], case['full_h'], case['S_subpkgs'] = S, full, by_descent
     return case
 
@@ -554,6 +603,8 @@ IMPORTS = [
     'from pkg.mod_a import f0, K0 as Q', 'from pkgx import mod_a', 'from pk import m',
     'from os import *', 'from pkg.mod_a import *', 'import os, os', 'import pkg.mod_a\nimport pkg.mod_a as again',
     'from pkg import sub', 'from pkg.sub import mod', 'import foo, foobar, foo_bar', 'from foo import bar',
+    'from os.path import (join,\n    basename,\n    splitext)', 'from pkg import (mod_a,\n    mod_b as mb3,\n)',
+    'import os.path as osp2, \\\n    json as js2', 'from pkg.sub import (\n    mod as deep_mod\n)\nimport foo.bar as fb2',
     'from pkg import mod_a, mod_b\nimport pkg.sub.mod as later', 'import pkg.mod_a, pkg.mod_b as mb2\nfrom pkg import sub as s2',
     'from pkg import mod_a as m1, mod_b as m2, sub as m3\nimport foo.bar\nfrom pk import m',
     'from foobar import bar', 'import foo.bar, foo.barbaz',
@@ -674,9 +725,16 @@ def _gen_program_text(rnd, rel_ok, max_stmts):
             lines.append('')
         if rnd.random() < 0.05:
             lines.append('# comment')
+        if rnd.random() < 0.06:
+            # characters that are line boundaries for str.splitlines() but not for the tokenizer
+            lines.append(rnd.choice(ODD_LINES))
         lines.append(l)
     return '\n'.join(lines) + '\n'
 
+
+# not line breaks for Python's tokenizer (inside comments / as blank-line form feed), but for str.splitlines()
+ODD_LINES = ['# form feed \x0c inside a comment', '\x0c', '# vertical tab \x0b and separators \x1c \x1d \x1e here',
+             '# NEL \x85 / LS \u2028 / PS \u2029 in a comment', '#\x0c\x0c']
 
 FIXED_LAYOUT = {
     'pkg/__init__.py': 'def init_f():\n    return 0\n',
@@ -715,10 +773,12 @@ def gen_tree_case(rnd, module_mode=False):
         files[rel] = gen_program_text(rnd, rel_ok=True)
         module = '.'.join(comps) if stem == '__main__' else '.'.join(comps + [stem])
         script = rel
+        modname_h = '.'.join(comps + [stem])
     else:
         script = rnd.choice(['script.py', 'sdir/script.py'])
         files[script] = gen_program_text(rnd, rel_ok=rnd.random() < 0.1)
         module = None
+        modname_h = None
     specs = rnd.sample(TREE_SELECTIONS, rnd.randint(0, 3))
     r = rnd.random()
     if r < 0.5:
@@ -727,5 +787,5 @@ def gen_tree_case(rnd, module_mode=False):
         specs.append(module)
     if not specs:
         specs = ['nothing']
-    return dict(kind='tree', files=files, script=script, module=module, prof_mod=specs,
+    return dict(kind='tree', files=files, script=script, module=module, prof_mod=specs, modname_h=modname_h,
                 imports=rnd.random() < 0.4, cli=None, e2e=False)
